@@ -511,7 +511,13 @@ where
 
         let timeout_duration =
             Duration::from_millis(self.node_config.raft.general_raft_timeout_duration_in_ms);
-        let core_req = proto_convert::to_core_read_req(proto_req);
+        let mut core_req = proto_convert::to_core_read_req(proto_req);
+        // Client override disallowed: a client-supplied policy is replaced by the server default
+        // (same rule as LeaderState::determine_read_policy) before the fast path is chosen.
+        let read_cfg = &self.node_config.raft.read_consistency;
+        if core_req.consistency_policy.is_some() && !read_cfg.allow_client_override {
+            core_req.consistency_policy = Some(read_cfg.default_policy.clone());
+        }
 
         // Fast path: Eventual/LeaseRead → ReadHandle (ReadActor + cmd_tx fallback).
         {
